@@ -51,10 +51,18 @@ def rule_counter_return(ctx, rid, file_re, bound=3000, reason=""):
     rx = re.compile(file_re)
     analysed = skipped = 0
     families = set()
+    counted_cls = set()
+    for F in ctx.db.funcs.values():
+        if rx.search(F.file) and F.cls and any(e.get("k") == "call" and e.get("q") and CNT.search(e["q"]) and "++" in e["q"] for _, _, e in F.all_elements()):
+            counted_cls.add(F.cls)
     for F in ctx.db.funcs.values():
         if not rx.search(F.file):
             continue
-        if not any(e.get("k") == "call" and e.get("q") and CNT.search(e["q"]) for _, _, e in F.all_elements()):
+        has_cnt = any(e.get("k") == "call" and e.get("q") and CNT.search(e["q"]) for _, _, e in F.all_elements())
+        flagged = (F.ret or "").startswith("std::pair<") and F.cls in counted_cls and any(
+            e.get("k") == "call" and e.get("q", "").endswith("operator()") and e.get("args") and F.strip(e["args"][0]).get("b") is not None
+            and F.strip(e.get("obj")).get("dk") == "parm" for _, _, e in F.all_elements() if e.get("mem"))
+        if not has_cnt and not flagged:
             continue
         try:
             ps = PathSim(F, bound=bound).run()
@@ -66,27 +74,35 @@ def rule_counter_return(ctx, rid, file_re, bound=3000, reason=""):
         ctx.paths += len(ps)
         rets = [p for p in ps if p.outcome == "return"]
         kinds = set(classify_ret(p.ret) for p in rets)
-        has_inc = any("++" in counter_ops(p) for p in rets)
+        has_inc = any("++" in counter_ops(p) for p in rets) or (flagged and F.kind != "lambda")
         has_dec = any("--" in counter_ops(p) for p in rets)
         name = F.q.split("::")[-1]
         if name in ("clear", "clear_array", "destroy", "~" + (F.cls or "").split("::")[-1]):
             continue
+        # bool parameters that switch the counting on/off (e.g. do_dequeue( res, bDeque ) used by empty())
+        param_gate = set()
+        for p in rets:
+            if counter_ops(p):
+                for atom, tv, bev in cond_atoms(p):
+                    if isinstance(atom, tuple) and atom and atom[0] == "p":
+                        param_gate.add((atom, tv))
         for p in rets:
             ops = counter_ops(p)
             rk = classify_ret(p.ret)
+            gated_off = any((atom, not tv) in param_gate for atom, tv, bev in cond_atoms(p) if isinstance(atom, tuple) and atom and atom[0] == "p")
             node = p.events[-1].node if p.events else None
             if len(ops) > 1:
                 ctx.bad(rid, F, "the item counter is changed %d times on one path of %s" % (len(ops), name), node, detail=reason, sig="counter-twice")
                 continue
             if ops:
-                ok = rk in ("true", "val", "void", "pair(1,1)") if ops[0] == "++" else rk in ("true", "val", "void")
+                ok = rk in ("true", "val", "void", "pair(1,1)", "pair(?,1)") if ops[0] == "++" else rk in ("true", "val", "void")
                 ctx.check(ok, rid, F, "%s: the item counter is %s only on a path that reports success" % (name, "incremented" if ops[0] == "++" else "decremented"),
                           node, detail="path returns %s. %s" % (rk, reason), sig="counter-on-failure:%s" % ops[0])
             else:
-                if rk == "pair(1,1)" and has_inc:
+                if rk in ("pair(1,1)", "pair(?,1)") and has_inc:
                     ctx.bad(rid, F, "%s reports a new item (true,true) on a path that does not increment the item counter" % name, node,
                             detail=reason, sig="new-item-not-counted")
-                elif rk == "true" and (has_inc != has_dec) and "pair(1,1)" not in kinds and not eliminated(p):
+                elif rk == "true" and (has_inc != has_dec) and "pair(1,1)" not in kinds and not eliminated(p) and not gated_off:
                     ctx.bad(rid, F, "%s reports success on a path that leaves the item counter unchanged" % name, node,
                             detail="other success paths of the function %s it. %s" % ("increment" if has_inc else "decrement", reason), sig="success-not-counted")
                 else:
@@ -96,6 +112,8 @@ def rule_counter_return(ctx, rid, file_re, bound=3000, reason=""):
             if rk.startswith("pair("):
                 for b, e in fl:
                     want = "pair(1,1)" if b else "pair(1,0)"
+                    if rk.startswith("pair(?"):
+                        want = "pair(?,1)" if b else "pair(?,0)"     # pair<iterator,bool>
                     ctx.check(rk == want, rid, F, "%s: functor called with bNew=%s on a path returning %s" % (name, bool(b), want), e.node,
                               detail="path returns %s. %s" % (rk, reason), sig="flag-vs-return:%d" % b)
                     if b:
@@ -122,4 +140,93 @@ def rule_size_reads_counter(ctx, rid, file_re):
             continue
         n += 1
         ctx.check(uses_counter or calls_size, rid, F, "size() reports the item counter", None, sig="size-counter")
+    return n
+
+
+INSERT_API = re.compile(r"::(insert|insert_with|emplace|emplace_with|push|push_back|push_front|enqueue|enqueue_with|update|upsert)$")
+ERASE_API = re.compile(r"::(erase|erase_with|unlink|extract|extract_with|extract_min|extract_max|pop|pop_back|pop_front|dequeue|dequeue_with)$")
+INSERT_NAME = re.compile(r"(insert|emplace|push|enqueue|update|upsert|link)")
+ERASE_NAME = re.compile(r"(erase|unlink|extract|pop|dequeue|remove|clear)")
+
+
+def _ops_of(F):
+    s = set()
+    for _, _, e in F.all_elements():
+        if e.get("k") == "call" and e.get("q") and CNT.search(e["q"]):
+            s.add("++" if ("++" in e["q"] or e["q"].endswith("inc")) else "--")
+    return s
+
+
+def rule_counter_reachability(ctx, rid, file_re, reason=""):
+    """(a) direction: functions named like insertions only increment, like removals only decrement; (b) every public insert-like /
+    erase-like member of a class that maintains an item counter reaches (through calls inside the library) a counter change of the right
+    direction; (c) definitions of the same member in sibling specialisations (HP/RCU/nogc files) agree on whether they change the counter"""
+    rx = re.compile(file_re)
+    funcs = [F for F in ctx.db.funcs.values() if rx.search(F.file)]
+    ops = {F.m: _ops_of(F) for F in funcs}
+    by_m = {F.m: F for F in funcs}
+    counted_cls = set(F.cls for F in funcs if ops[F.m] and F.cls)
+    n = 0
+    # (a)
+    for F in funcs:
+        if not ops[F.m]:
+            continue
+        name = F.q.split("::")[-1]
+        if name == "operator()" and F.kind == "lambda":
+            continue
+        ins, era = bool(INSERT_NAME.search(name)), bool(ERASE_NAME.search(name))
+        if ins == era:
+            continue
+        n += 1
+        want = "++" if ins else "--"
+        ctx.check(ops[F.m] == {want}, rid, F, "%s changes the item counter only in the direction of its operation (%s)" % (name, want), None,
+                  detail="operations found: %s. %s" % (sorted(ops[F.m]), reason), sig="direction")
+    # (b)
+    memo = {}
+
+    def closure(m, depth=0):
+        if m in memo:
+            return memo[m]
+        memo[m] = set()
+        F = by_m.get(m)
+        if F is None or depth > 5:
+            return set()
+        res = set(ops.get(m, ()))
+        for _, _, e in F.all_elements():
+            if e.get("k") in ("call", "ctor") and e.get("m") in by_m and e["m"] != m:
+                res |= closure(e["m"], depth + 1)
+            if e.get("k") == "lambda" and e.get("m") in by_m:
+                res |= closure(e["m"], depth + 1)
+        memo[m] = res
+        return res
+    for F in funcs:
+        if F.cls not in counted_cls:
+            continue
+        if INSERT_API.search(F.q):
+            want = "++"
+        elif ERASE_API.search(F.q):
+            want = "--"
+        else:
+            continue
+        n += 1
+        ctx.check(want in closure(F.m), rid, F, "%s reaches an item-counter %s" % (F.q.split("::")[-1], "increment" if want == "++" else "decrement"),
+                  None, detail="the class maintains an item counter but this operation never changes it: size()/empty() drift. " + reason,
+                  sig="api-reaches-counter:%s" % want)
+    # (c)
+    groups = {}
+    for F in funcs:
+        groups.setdefault(F.q, {}).setdefault(F.file, []).append(F)
+    for q, byfile in groups.items():
+        if len(byfile) < 2:
+            continue
+        has = {f: any(closure(F.m) for F in fs) for f, fs in byfile.items()}      # counts itself or through its callees
+        if any(has.values()) and not all(has.values()):
+            for f, fs in byfile.items():
+                if not has[f]:
+                    n += 1
+                    ctx.bad(rid, fs[0], "%s changes the item counter in sibling specialisations (%s) but not in this one" % (
+                        q.split("::")[-1], ", ".join(sorted(x.split("/")[-1] for x in has if has[x]))), None, detail=reason, sig="sibling-counter")
+        elif all(has.values()):
+            n += 1
+            ctx.ok(rid, next(iter(byfile.values()))[0], "sibling specialisations of %s agree on counting" % q.split("::")[-1], None, sig="sibling-agree")
     return n
